@@ -43,13 +43,14 @@ QueryAtom ==   \* a single-atom filter over everything: the sharpest probe for a
    queries in between, single-atom probes at the end). *)
 SimNext ==
   IF steps >= MaxSteps - 2 THEN QueryAtom
-  ELSE
-  \/ StoreR \/ StoreOne
-  \/ (steps < 7 /\ (StoreR \/ StoreOne))
-  \/ QueryFull \/ QueryAny \/ QueryAtom
-  \/ Revert
-  \/ (steps >= 6 /\ Revert)
-  \/ \E g \in R(BOOLEAN) : Restart(g)
+  ELSE IF steps < 6
+  THEN \/ StoreR \/ StoreOne \/ StoreOne \/ StoreOne
+       \/ QueryFull
+       \/ \E g \in R(BOOLEAN) : Restart(g)
+  ELSE \/ StoreR \/ StoreOne
+       \/ QueryFull \/ QueryAny \/ QueryAtom
+       \/ Revert \/ Revert
+       \/ \E g \in R(BOOLEAN) : Restart(g)
 
 Step ==
   /\ SimNext
@@ -60,10 +61,10 @@ Emit ==
   /\ chain' = <<>>
   /\ persisted' = [w \in BaseWindows |-> {}]
   /\ snapshot' = NoSnap
-  /\ running' = [from |-> (Base \div W) * W, next |-> Base, bits |-> {}]
+  /\ running' = Lazy
   /\ cache' = EmptyF
   /\ gstops' = 0
-  /\ tainted' = FALSE
+  /\ cause' = "none"
   /\ act' = [name |-> "Init"]
   /\ res' = [kind |-> "ok"]
   /\ hist' = <<>>
